@@ -165,10 +165,24 @@ def check_helpers(K, with_sid, with_pi, flags, ids, rec: Recorder, node, apps):
     case = {"class": K.__name__, "session_id": with_sid, "proxy_info": with_pi, "flags": flags, "ids": ids}
     for how in ("app-auth", "app-acct", "node"):
         req = make_request(K, flags, ids, False)
-        has_sid = declares(K, 263) and with_sid
+        A_ = expected_answer_class(K)
+        # the command has a Session-Id if its request or its answer declares one
+        has_sid = with_sid and (declares(K, 263) or declares(A_, 263))
         has_pi = declares(K, 284) and with_pi
-        if has_sid:
+        if has_sid and declares(K, 263):
             req.session_id = "verif.host;1;2;3"
+        elif has_sid:
+            # the request class does not declare it: the AVP is on the wire all the same, and the request is what
+            # decoding those bytes gives
+            from diameter.message.avp import Avp
+            from diameter.message import Message
+            req.append_avp(Avp.new(263, value="verif.host;1;2;3"))
+            try:
+                req = Message.from_bytes(req.as_bytes())
+            except Exception as e:
+                rec.violation(f"C20/helper-raises/decode/{type(e).__name__}", dict(case, how=how), repr(e))
+                continue
+            rec.cls("helper:sid-undeclared-in-request")
         if has_pi:
             req.proxy_info = [ProxyInfo(proxy_host=b"p1.example", proxy_state=b"\x01\x02"),
                               ProxyInfo(proxy_host=b"p2.example", proxy_state=b"")]
